@@ -440,3 +440,44 @@ Proof.
   - apply clean_shapes_NoDup. exact Hl.
   - intros H; inversion H; subst. exact Hl.
 Qed.
+
+(** ** boolean checkers (for the concrete witnesses of Props/C05refs.v) *)
+Definition refs_closedb (l : list shape) : bool :=
+  forallb (fun sh => forallb (fun st => forallb (fun k => negb (is_shape_type k) || mem_str k (map sh_name l))
+                                                (s_types st)) (sh_stmts sh)) l.
+
+Lemma refs_closedb_spec l : refs_closedb l = true <-> refs_closed l.
+Proof.
+  unfold refs_closedb, refs_closed. rewrite forallb_forall. split.
+  - intros H sh st k Hsh Hst Hk Hty. specialize (H sh Hsh). rewrite forallb_forall in H.
+    specialize (H st Hst). rewrite forallb_forall in H. specialize (H k Hk).
+    rewrite Hty in H. simpl in H. apply mem_str_In in H. apply in_map_iff in H.
+    destruct H as (sh' & Hn & Hin). exists sh'. split; assumption.
+  - intros H sh Hsh. rewrite forallb_forall. intros st Hst. rewrite forallb_forall. intros k Hk.
+    destruct (is_shape_type k) eqn:Hty; [|reflexivity]. simpl.
+    destruct (H sh st k Hsh Hst Hk Hty) as (sh' & Hin & Hn). apply mem_str_In.
+    apply in_map_iff. exists sh'. split; assumption.
+Qed.
+
+Definition pdict_keys_ok (names : list str) (pd : pdict) : bool :=
+  forallb (fun pe : str * dict cdict =>
+             forallb (fun ke : str * cdict => negb (is_shape_type (fst ke)) || mem_str (fst ke) names) (snd pe)) pd.
+
+Definition profile_refs_closedb (P : cprofile) : bool :=
+  let names := map (shape_name c_SHAPES_DEFAULT_NAMESPACE) (dkeys P) in
+  forallb (fun ce : str * centry => pdict_keys_ok names (c_direct (snd ce)) && pdict_keys_ok names (c_inverse (snd ce))) P.
+
+Lemma profile_refs_closedb_sound P : profile_refs_closedb P = true -> profile_refs_closed P.
+Proof.
+  unfold profile_refs_closedb, profile_refs_closed. rewrite forallb_forall.
+  intros H c e k Hce (p & m & cd & Hpm & Hk) Hty.
+  specialize (H (c, e) Hce). simpl in H. apply andb_true_iff in H. destruct H as [Hd Hi].
+  assert (Hok : forall pd, pdict_keys_ok (map (shape_name c_SHAPES_DEFAULT_NAMESPACE) (dkeys P)) pd = true ->
+                           In (p, m) pd -> exists c', In c' (dkeys P) /\ k = shape_name c_SHAPES_DEFAULT_NAMESPACE c').
+  { intros pd Hpd Hin. unfold pdict_keys_ok in Hpd. rewrite forallb_forall in Hpd.
+    specialize (Hpd (p, m) Hin). simpl in Hpd. rewrite forallb_forall in Hpd.
+    specialize (Hpd (k, cd) Hk). simpl in Hpd. rewrite Hty in Hpd. simpl in Hpd.
+    apply mem_str_In in Hpd. apply in_map_iff in Hpd. destruct Hpd as (c' & Hn & Hc').
+    exists c'. split; [exact Hc' | symmetry; exact Hn]. }
+  destruct Hpm as [Hpm|Hpm]; [apply (Hok _ Hd Hpm) | apply (Hok _ Hi Hpm)].
+Qed.
